@@ -148,7 +148,9 @@ def judge_record(present, via='direct', overrides=None):
 NAMESPACES = {0: 'unknown', 2: 'activity', 3: 'trace', 4: 'log', 5: 'metadata', 6: 'signpost', 7: 'loss'}
 TYPES = {2: [1, 2, 3], 3: [0, 1, 2, 0x10, 0x11], 4: [0, 1, 2, 0x10, 0x11], 5: [1, 2, 3, 4],
          6: [s | t for s in (0, 0x40, 0x80, 0xc0) for t in (0, 1, 2)], 7: [0], 0: [0]}
-NS_FLAGS = {4: list(range(32)), 3: [0, 1, 2, 4, 8, 0x10, 0x80, 0x03, 0x9f], 6: [0], 2: [0], 5: [0], 7: [0], 0: [0]}
+# byte 3: the log namespace defines 5 flag bits, the SIGNPOST namespace the same 5 plus has_name (0x80) (firehose tracepoint_private.h);
+# the trace namespace defines none (a decoded value, if any, must still be the byte)
+NS_FLAGS = {4: list(range(32)), 6: [0, 1, 2, 4, 8, 0x10, 0x80, 0x03, 0x82, 0x9f], 3: [0, 1, 0x80], 2: [0], 5: [0], 7: [0], 0: [0]}
 
 
 def pack_ti(ns, ty, general, nsflags, code):
@@ -175,7 +177,7 @@ def check_trace_id(t, word):
         return ('trace-identifier-field-wrong:namespace-name', {'word': hex(word), 'got': repr(t.namespace)})
     if t.flags is not None and int(val(t.flags)) != nsflags:
         return ('trace-identifier-field-wrong:flags', {'word': hex(word), 'got': repr(t.flags), 'expected': nsflags})
-    if t.flags is None and ns in (3, 4):
+    if t.flags is None and ns in (4, 6):
         return ('trace-identifier-field-wrong:flags', {'word': hex(word), 'got': None, 'expected': nsflags})
     return None
 
